@@ -39,6 +39,14 @@ type AppendSpec struct {
 	Line  int
 }
 
+// DelegateSpec: the function is a plain forwarding call of Callee on the
+// package-level variable Global with its own parameters, returning its results.
+type DelegateSpec struct {
+	Tags   []string
+	Callee string
+	Global string
+}
+
 type WriteSpec struct {
 	Ptr  string
 	N    *CExpr
@@ -63,6 +71,8 @@ type Contract struct {
 	Writes     []*WriteSpec
 	AllocBound *Clause
 	AllocSite  *Clause
+	NoGlobals  []string // tags: the function (and what it inlines) references no package-level variable
+	Delegates  *DelegateSpec
 	Trust      []string // obligation kinds assumed instead of proved in this function (reported)
 	Keeps      []*WriteSpec
 	Loops      map[int]*LoopSpec
@@ -331,6 +341,17 @@ func (sp *Specs) parseLine(cur **Contract, line, file string, ln int) error {
 			return err
 		}
 		c.Writes = append(c.Writes, &WriteSpec{Ptr: parts[0], N: e, Tags: tags})
+	case "noglobals":
+		c.NoGlobals = tags
+		if len(tags) == 0 {
+			c.NoGlobals = []string{}
+		}
+	case "delegates":
+		f := strings.Fields(rest)
+		if len(f) != 2 {
+			return fmt.Errorf("delegates <callee key> <global>")
+		}
+		c.Delegates = &DelegateSpec{Tags: tags, Callee: f[0], Global: f[1]}
 	case "trust":
 		c.Trust = append(c.Trust, strings.Fields(rest)...)
 	case "allocsite":
